@@ -28,6 +28,34 @@ def ref_module(prog: Program) -> ModuleInfo:
     return m
 
 
+_SIMPLE_INIT: dict = {}
+
+
+def simple_init(prog: Program, qualname: str) -> bool:
+    """A constructor is inlined by default only if its __init__ is straight-line field assignment."""
+    if qualname in _SIMPLE_INIT:
+        return _SIMPLE_INIT[qualname]
+    ci = prog.classes.get(qualname)
+    ok = False
+    if ci is not None:
+        r = prog.resolve_method(ci, "__init__")
+        if r is not None:
+            ok = True
+            for st in r[1].body:
+                if isinstance(st, ast.Expr) and isinstance(st.value, ast.Constant):
+                    continue
+                if isinstance(st, ast.FunctionDef):
+                    continue
+                if isinstance(st, (ast.Assign, ast.AnnAssign)):
+                    tg = st.targets if isinstance(st, ast.Assign) else [st.target]
+                    if all(isinstance(t, ast.Attribute) and isinstance(t.value, ast.Name) and t.value.id == "self" for t in tg):
+                        continue
+                ok = False
+                break
+    _SIMPLE_INIT[qualname] = ok
+    return ok
+
+
 class Session:
     """One run of one property's rules over one Program."""
 
@@ -52,7 +80,7 @@ class Session:
 
             def pol(kind, name, cls, names=names):
                 if kind == "init":
-                    return True
+                    return name in names or name.split(".")[-1] in names or simple_init(self.prog, name)
                 short = name.split(".")[-1]
                 return name in names or short in names or (kind == "property" and ("@property" in names))
             inline = pol
